@@ -261,7 +261,9 @@ class Sim:
         exc = e.pending_exc
         if exc is not None:
             e.pending_exc = None
-            raise exc
+            if isinstance(exc, BaseException):
+                raise exc
+            exc()       # a signal handler, executed by the entity itself
         if e is self.main and self.aborted is not None:
             raise self.aborted
 
